@@ -186,6 +186,69 @@ UNITS += [recv_iter]
 from units.C15 import encodeBase64 as _b64, sha_macros as _sham, sha_update as _shau
 UNITS += [_b64, _sham, _shau]
 
+# ---- WebSocketMsg -> String / Var: the text handed to the application has the length of the message (a text message may contain U+0000)
+msg_string = Unit(
+    'WebSocketMsg_to_String', 'C11',
+    cuts=[Cut('ms', W, r'^WebSocketMsg::operator String\(\) const\s*$',
+              rules=[(r'String\(_data\)', 'STRING_FROM_BYTES()', None), (r'String\(\*\*this\)', 'STRING_FROM_CSTR()', None), (r'String\(\(const char\*\)_data\.data\(\)\)', 'STRING_FROM_CSTR()', None), (r'return ([^;]*);', r'{ g_reslen = \1; return; }', 1)]),
+          Cut('mv', W, r'^WebSocketMsg::operator Var\(\) const\s*$',
+              rules=[(r'String\(_data\)', 'STRING_FROM_BYTES()', None), (r'\*\*this', 'STRING_FROM_CSTR()', None), (r'Json::decode\(([^;]*)\)', r'\1', 1), (r'return ([^;]*);', r'{ g_reslen = \1; return; }', 1)])],
+    text=PRE + r'''
+int g_len, g_first_nul, g_reslen;
+/* String(const Array<byte>&): length = the array's length (String.h);  String(const char*): length = strlen = offset of the first zero byte */
+static int STRING_FROM_BYTES(void) { return g_len; }
+static int STRING_FROM_CSTR(void) { return g_first_nul < g_len ? g_first_nul : g_len; }
+static void msg_to_String(void) @@ms@@
+static void msg_to_Var(void) @@mv@@
+int nondet_int(void);
+void vf_harness(void) {
+  g_len = nondet_int(); g_first_nul = nondet_int(); __CPROVER_assume(0 <= g_len && g_len <= 1000000 && 0 <= g_first_nul && g_first_nul <= g_len);   /* position of the first 0x00 in the payload (g_len: none) */
+  g_reslen = -1; msg_to_String();
+  __CPROVER_assert(g_reslen == g_len, "the String made from a message has the message's length, also when the payload contains a zero byte");
+  g_reslen = -1; msg_to_Var();
+  __CPROVER_assert(g_reslen == g_len, "the text given to the JSON decoder is the whole message");
+  VF_CANARY();
+}
+''',
+    entry=None, floor=2, expect=['assertion'],
+    desc='WebSocketMsg::operator String / operator Var: the text is built from the stored bytes with their length, not from a C string (payloads containing 0x00 arrive intact)',
+    functions=['WebSocketMsg::operator String', 'WebSocketMsg::operator Var'],
+    trusted=['String(const Array<byte>&) takes the array length; String(const char*) takes strlen'],
+)
+
+# ---- WebSocketServer::serve: the header names of the handshake are keyed case-insensitively (HTTP header names are case-insensitive: "sec-websocket-key" is the same header)
+# the region between the "no colon" exit and the value extraction computes the dictionary key `cname` from the line; it is run on two lines that differ only in case
+hs_names = Unit(
+    'WebSocketServer_header_names', 'C11',
+    cuts=[Cut('hn', W, r'client\.close\(\);\s*return;\s*\}\s*\n((?:.|\n)*?)\n\s*String value = ', kind='expr',
+              rules=[(r'String name = line\.substring\(0, c\);', 'const char* name = line_buf; int name_len = c;', None), (r'String cname;', 'cname_len = 0;', None),
+                     (r'String cname = line\.substring\(0, c\);[^\n]*', 'for (int vf_i = 0; vf_i < c; vf_i++) cname_buf[vf_i] = line_buf[vf_i]; cname_len = c;', None),
+                     (r'cname << char\(([^;]*)\);', r'cname_buf[cname_len++] = (char)(\1);', None), (r'\bname\.length\(\)', 'name_len', None),
+                     (r'\bcname\.length\(\)', 'cname_len', None), (r'\bcname\[', 'cname_buf[', None)])],
+    text=PRE + r'''
+static int toupper(int c) { return (c >= 'a' && c <= 'z') ? c - 32 : c; }
+static int tolower(int c) { return (c >= 'A' && c <= 'Z') ? c + 32 : c; }
+static int isalnum(int c) { return (c >= 'a' && c <= 'z') || (c >= 'A' && c <= 'Z') || (c >= '0' && c <= '9'); }
+#define NL 8
+int nondet_int(void); char nondet_char(void);
+static void header_key(const char* line_buf, int c, char* cname_buf, int* cname_len_p) { int cname_len = 0; @@hn@@ *cname_len_p = cname_len; }
+void vf_harness(void) {
+  char a[NL], b[NL], ka[NL + 1], kb[NL + 1]; int n = nondet_int(), la = -1, lb = -1; __CPROVER_assume(1 <= n && n <= NL);
+  for (int i = 0; i < NL; i++) { a[i] = nondet_char(); b[i] = nondet_char(); __CPROVER_assume(i >= n || (a[i] > 0 && a[i] != ':' && tolower(a[i]) == tolower(b[i]))); }
+  header_key(a, n, ka, &la); header_key(b, n, kb, &lb);
+  __CPROVER_assert(la == n && lb == n, "the key has the length of the name");
+  int k = nondet_int(); __CPROVER_assume(0 <= k && k < n);
+  __CPROVER_assert(ka[k] == kb[k], "header names that differ only in the case of ASCII letters get the same key (a handshake with lower-case header names is the same handshake)");
+  VF_CANARY();
+}
+''',
+    entry=None, unwind=10, floor=2, expect=['assertion'], kind='bounded', bound='header names of 1..8 characters',
+    desc='WebSocketServer::serve: the dictionary key computed for a handshake header name does not depend on the case of its letters (first letter included)',
+    functions=['WebSocketServer::serve (header name canonicalisation)'],
+    trusted=['toupper/tolower/isalnum in the C locale; String operations of the region rewritten to a character buffer (R10)'],
+)
+UNITS += [msg_string, hs_names]
+
 # replay: where the trace recipe of a unit does not reproduce (or there is none) the driver's battery runs on the real library: a raw client against the real WebSocketServer,
 # handshake accept key, one masked message of every length-form boundary (125/126/127, 32767/32768, 65535/65536) echoed back, then messages fragmented into 2, 3 and 5 frames
 _bat = replay.battery('C11/driver.cpp', ['battery'])
